@@ -81,3 +81,65 @@ Definition router_hooks : hooks := {| h_alias := alias_redirect_url; h_default :
 (* MapAdapter.match with everything the router does on its own *)
 Definition router_match (m : rmap) (a : adapter) (path_info meth : str) : outcome :=
   map_match router_hooks m a path_info meth.
+
+(* ------------------------------------------------------------------ Rule.redirect_to (string template)
+   MapAdapter.match, after the defaults canonicalisation: _simple_rule_re = <([^>]+)> ; every <name> of the template
+   is replaced by rule._converters[name].to_url(rv[name]); the result is joined to scheme://host/script-root/ with
+   urllib.parse.urljoin.  urljoin is modelled for what it leaves alone: a relative reference without scheme,
+   authority, leading slash or dot segments (everything else: BUnsupported).  A name that is not an argument of the
+   rule is a KeyError (BUnsupported here: the harness does not write such templates). *)
+Definition LT : N := 60.
+Definition GT : N := 62.
+Fixpoint conv_get (k : str) (cs : list (str * conv)) : option conv :=
+  match cs with
+  | [] => None
+  | (k', c) :: cs' => if list_eqb k' k then Some c else conv_get k cs'
+  end.
+Fixpoint rt_subst (cs : list (str * conv)) (vals : list (str * value)) (st : option str) (s : str) : bres str :=
+  match s with
+  | [] => BOk (match st with None => [] | Some acc => LT :: acc end)
+  | c :: r =>
+      match st with
+      | None => if c =? LT then rt_subst cs vals (Some []) r
+                else bbind (rt_subst cs vals None r) (fun t => BOk (c :: t))
+      | Some acc =>
+          if c =? GT then
+            if is_nil acc then bbind (rt_subst cs vals None r) (fun t => BOk (LT :: GT :: t))
+            else match dict_get acc vals, conv_get acc cs with
+                 | Some v, Some cv => bbind (to_url cv v) (fun u => bbind (rt_subst cs vals None r) (fun t => BOk (u ++ t)))
+                 | _, _ => BUnsupported
+                 end
+          else rt_subst cs vals (Some (acc ++ [c])) r
+      end
+  end.
+
+Definition DOT' : N := 46.
+(* the reference urljoin appends unchanged to a base that ends in a slash *)
+(* urljoin drops "." and ".." segments and empty segments in the middle of the joined path *)
+Definition not_dots (sg : str) : bool := negb (list_eqb sg [DOT']) && negb (list_eqb sg [DOT'; DOT']).
+Definition no_dot_segments (t : str) : bool :=
+  forallb (fun sg => negb (is_nil sg) && not_dots sg) (removelast (split_slash t)) && not_dots (last (split_slash t) []).
+Definition plain_reference (t : str) : bool :=
+  negb (is_nil t) && negb (starts_with [SLASH] t)
+  && forallb (fun c => negb (c =? COLON)) (hd [] (split_slash t))
+  && no_dot_segments t.
+Definition redirect_base (m : rmap) (a : adapter) : str :=
+  eff_scheme a ++ [COLON; SLASH; SLASH] ++ get_host m a None ++ script_name a.
+Definition redirect_to_url (m : rmap) (a : adapter) (r : rule) (vals : list (str * value)) (tpl : str) : bres str :=
+  bbind (rt_subst (rule_convs r) vals None tpl) (fun t =>
+    if plain_reference t && no_dot_segments (lstrip_slash (script_name a)) then BOk (redirect_base m a ++ t) else BUnsupported).
+
+(* MapAdapter.match with redirect_to templates given per rule index *)
+Definition router_match_rt (rt : N -> option str) (m : rmap) (a : adapter) (path_info meth : str) : outcome :=
+  match router_match m a path_info meth with
+  | Match r vs =>
+      match rt (r_idx r) with
+      | Some tpl => match redirect_to_url m a r vs tpl with
+                    | BOk u => RedirectTo u
+                    | BValueError => Raised false
+                    | BUnsupported => Raised true
+                    end
+      | None => Match r vs
+      end
+  | o => o
+  end.
